@@ -10,14 +10,16 @@ oracle fields (space separated in R/W lines, '/' separated inside a batch of an 
 model:
   R <oracle> n=<int>                 -> res=<ok|err kind> kill=<0|1> cr=<n> vr=<n>
   W prev=<c> ch=.. vs=.. b=.. n=..   -> res=.. cr=.. vr=..          (WaitForCorrectVersion alone)
-  H plus=<0|1> bs=<batch;batch;…>    batch = ct=<n|e|c>/w=<0|1>/api=<0|1>/<oracle>
+  H plus=<0|1> bs=<batch;batch;…>    batch = ct=<n|e|c>/nf=<n>/vi=<n>/w=<ok|CLS:k>/api=<0|1>/<oracle>
+                                     CLS = n (fs.ErrNotExist) | p (fs.ErrPermission) | i (EIO) | o (other);
+                                     k = files written completely before the failure
                                      -> per batch, ';' separated:
-       v=<n|-> gen=<0|1> rv=<n|-> rr=<ok|kind|-> api=<0|1> err=<0|1> st=<0|1> ver=<n> ready=<0|1> fbe=<0|1> last=<0|1> closes=<n>
+       v=<n|-> gen=<0|1> rv=<n|-> rr=<ok|kind|-> api=<0|1> err=<0|1> st=<0|1> fe=<CLS|-> fw=<n|-> ver=<n> ready=<0|1> fbe=<0|1> last=<0|1> closes=<n>
   S t=<g|l|r> err=<0|1> cs=<type:status:reason,…>   -> cs=<…>
 judge (the property on what the real code did; see `judgeR`, `judgeH`):
   R n=<int> ret=<ok|err> hup=<0|1> chg=<0|1> served=<int|->
   P plus=<0|1> obs=<o;o|o;o;o>         several controller processes, segments separated by '|'
-  H plus=<0|1> obs=<o;o;…>  o = ct=/w=/rr=/api=/v=/fv=/rv=/hup=/chg=/served=/run=/st=/gw=/ls=/rt=/ready=/closes=/panic=
+  H plus=<0|1> obs=<o;o;…>  o = ct=/w=/rr=/api=/v=/fv=/rv=/hup=/chg=/served=/run=/full=/vd=/st=/gw=/ls=/rt=/sv=/svl=/ready=/closes=/panic=
 -/
 namespace NGF.C12
 open NGF.Proto NGF.Reload NGF.HandlerVer
@@ -84,13 +86,31 @@ def parseCt (s : String) : Option ChangeType :=
   if s == "n" then some .noChange else if s == "e" then some .endpointsOnly
   else if s == "c" then some .clusterState else none
 
+def parseCls (s : String) : Option ErrClass :=
+  if s == "n" then some .notExist else if s == "p" then some .permission
+  else if s == "i" then some .io else if s == "o" then some .other else none
+
+def showCls : ErrClass → String
+  | .notExist => "n" | .permission => "p" | .io => "i" | .other => "o"
+
+def parseFiles (s : String) : Option FilesOutcome :=
+  if s == "ok" then some .ok
+  else match s.splitOn ":" with
+    | [c, k] => do
+      let c ← parseCls c
+      let k ← k.toNat?
+      pure (.failed c k)
+    | _ => none
+
 def parseBatch (s : String) : Option Batch := do
   let fs := s.splitOn "/"
   let ct ← field fs "ct" >>= parseCt
-  let w ← field fs "w" >>= parseBool
+  let nf ← field fs "nf" >>= String.toNat?
+  let vi ← field fs "vi" >>= String.toNat?
+  let w ← field fs "w" >>= parseFiles
   let api ← field fs "api" >>= parseBool
   let o ← parseOracle fs
-  pure ⟨ct, w, o, api⟩
+  pure ⟨ct, nf, vi, w, o, api⟩
 
 def showOptNat : Option Nat → String
   | none => "-"
@@ -101,7 +121,10 @@ def showStep (s : H) (e : Emit) : String :=
     | none => "-"
     | some r => showRes r.res
   s!"v={showOptNat e.cfgVersion} gen={b01 e.generated} rv={showOptNat e.reloadVersion} rr={rr} " ++
-  s!"api={b01 e.apiCalled} err={b01 e.err} st={b01 e.statusUpdated} ver={s.version} " ++
+  let fe := match e.fileErr with
+    | none => "-"
+    | some c => showCls c
+  s!"api={b01 e.apiCalled} err={b01 e.err} st={b01 e.statusUpdated} fe={fe} fw={showOptNat e.written} ver={s.version} " ++
   s!"ready={b01 s.ready} fbe={b01 s.firstBatchErr} last={b01 s.lastErr} closes={s.closes}"
 
 def modelH (fs : List String) : String :=
@@ -162,14 +185,18 @@ def parseObs (s : String) : Option Obs := do
   let chg ← field fs "chg" >>= parseBool
   let served ← optField fs "served" String.toInt?
   let run ← field fs "run" >>= parseBool
+  let full ← optField fs "full" parseBool
+  let vd ← optField fs "vd" String.toNat?
   let st ← field fs "st" >>= parseBool
   let gw ← field fs "gw"
   let ls ← field fs "ls"
   let rt ← field fs "rt"
+  let sv ← field fs "sv"
+  let svl ← field fs "svl"
   let ready ← field fs "ready" >>= parseBool
   let closes ← field fs "closes" >>= String.toNat?
   let panic ← field fs "panic" >>= parseBool
-  pure ⟨ct, w, rr, api, v, fv, rv, hup, chg, served, run, st, gw, ls, rt, ready, closes, panic⟩
+  pure ⟨ct, w, rr, api, v, fv, rv, hup, chg, served, run, full, vd, st, gw, ls, rt, sv, svl, ready, closes, panic⟩
 
 def judgeLine (line : String) : String :=
   match line.splitOn " " with
